@@ -60,12 +60,30 @@ StepDec(e) ==
             <<e.obs.dl = u.sec.dl, "downlink NAS COUNT estimate is " \o Str(e.obs.dl) \o " but the AMF used " \o Str(u.sec.dl)>> >>),
        sec |-> nsec, rx |-> rx]
 
+\* the counter type itself (security.Count): one row = one overflow value x a list of sequence numbers
+StepCount(e) ==
+   LET n == Len(e.sqns)
+       okAt(i) == LET c == S!MkCount(e.ovf, e.sqns[i]) nx == S!AddOne(c) IN
+                  /\ e.get[i] = c /\ e.sqnOut[i] = S!Sqn(c) /\ e.ovfOut[i] = S!Ovf(c) /\ e.sqnOut[i] = e.sqns[i] /\ e.ovfOut[i] = e.ovf
+                  /\ e.next[i] = nx
+                  /\ e.afterSqn[i] = S!MkCount(S!Ovf(nx), e.x)
+                  /\ e.afterOvf[i] = S!MkCount(e.y, e.x)
+       badIdx == {i \in 1..n : ~okAt(i)} IN
+   [r |-> IF badIdx = {} /\ Len(e.get) = n THEN Ok
+          ELSE LET i == CHOOSE j \in badIdx : \A k \in badIdx : j <= k IN
+               No("NAS COUNT arithmetic: overflow " \o Str(e.ovf) \o ", sequence number " \o Str(e.sqns[i]) \o ": Set/Get/SQN/Overflow/AddOne/SetSQN/SetOverflow gave "
+                  \o Str(<<e.get[i], e.sqnOut[i], e.ovfOut[i], e.next[i], e.afterSqn[i], e.afterOvf[i]>>) \o ", the 24-bit counter of TS 24.501 4.4.3.1 gives "
+                  \o Str(<<S!MkCount(e.ovf, e.sqns[i]), e.sqns[i], e.ovf, S!AddOne(S!MkCount(e.ovf, e.sqns[i])),
+                            S!MkCount(S!Ovf(S!AddOne(S!MkCount(e.ovf, e.sqns[i]))), e.x), S!MkCount(e.y, e.x)>>)),
+    sec |-> sec, rx |-> rx]
+
 Init == l = 1 /\ bad = 0 /\ sec = NoSec /\ rx = NoSec
 Next == /\ l <= Len(Trace)
         /\ LET e == Trace[l] IN
              IF e.ev = "Start" THEN sec' = StartSec(e) /\ rx' = RxOf(StartSec(e)) /\ bad' = bad
              ELSE LET s == IF e.ev = "Enc" THEN StepEnc(e)
                            ELSE IF e.ev = "Dec" THEN StepDec(e)
+                           ELSE IF e.ev = "Count" THEN StepCount(e)
                            ELSE [r |-> No("no action of the specification matches this event"), sec |-> sec, rx |-> rx]
                   IN /\ Report(l, e, s.r)
                      /\ sec' = s.sec /\ rx' = s.rx
